@@ -3,7 +3,7 @@
 Remove with: git -C /repo worktree remove --force <path>; rm -rf $(dirname <path>)"""
 import json, os, re, subprocess, sys, tempfile
 ROOT = os.path.dirname(os.path.dirname(os.path.abspath(__file__)))
-m = [x for x in json.load(open(os.path.join(ROOT, "tools", "selfmut.json"))) if x["id"] == sys.argv[1]][0]
+m = [x for x in json.load(open(os.path.join(ROOT, "tools", "selfmut.json"))) + json.load(open(os.path.join(ROOT, "tools", "equivmut.json"))) if x["id"] == sys.argv[1]][0]
 tmp = tempfile.mkdtemp(prefix="mutwt.")
 wt = os.path.join(tmp, "r")
 subprocess.run(["git", "-C", "/repo", "worktree", "add", "-q", "--detach", wt, "HEAD"], check=True)
